@@ -1024,6 +1024,46 @@ def check(run):
             bearing = 5.0 + 10.0 * s if rng.random() < 0.7 else rng.uniform(0, 360)
             frac = rng.choice([0.9999, 0.999, 0.998, rng.uniform(0.99, 1.0)])
             lines.append(f'np-sliver.circ {b} {L} {rat(cx)} {rat(cy)} {rat(r)} {rat(bearing)} {rat(frac)}')
+    # large circles away from the equator against coarse cells: the regime in which an *approximate* extent of a curved
+    # shape (its `.bounds`, a corner-point box, …) is off by a visible fraction of a cell (seeded change C12-n3 pruned
+    # the flood with it); probes sit well inside the 36-gon, so only 'present' is acceptable for them
+    bits = {16: 4, 32: 5, 64: 6}
+    for _ in range(run.scale(6, 40)):
+        b = rng.choice([16, 32, 64])
+        r = rng.uniform(40e3, 300e3)
+        cy = rng.choice([-1, 1]) * rng.uniform(40.0, 72.0)
+        cx = rng.uniform(-170.0, 170.0)
+        r_deg = r / 111e3
+        L = max(k for k in range(1, 12) if 180.0 / 2 ** ((bits[b] * k) // 2) >= r_deg / 4 or k == 1)
+        for s in range(72):
+            for frac in (0.9, 0.95, 0.98, 0.99):
+                lines.append(f'np-sliver.circ {b} {L} {rat(cx)} {rat(cy)} {rat(r)} {rat(2.5 + 5.0 * s)} {rat(frac)}')
+    # … and circles *placed* so that a cell boundary just clips the northern tip and the eastern-most vertex of the
+    # drawn polygon (0.3 % of the radius): the cells beyond those boundaries hold contained coordinates next to the tips
+    gs, G, _col, _agg = _mods()
+    from geostructures.calc import inverse_haversine_degrees
+    for _ in range(run.scale(4, 30)):
+        b = rng.choice([16, 32, 64])
+        r = rng.uniform(40e3, 300e3)
+        r_deg = r / 111e3
+        L = max(k for k in range(1, 12) if 180.0 / 2 ** ((bits[b] * k) // 2) >= r_deg / 4 or k == 1)
+        _lo, _la, lon_err, lat_err = G._decode_niemeyer(G._coord_to_niemeyer(gs.Coordinate(0.1, 0.1), L, b), b)
+        h, w = 2 * lat_err, 2 * lon_err
+        sgn = rng.choice([-1, 1])
+        y0 = sgn * rng.uniform(40.0, 70.0)
+        tip = inverse_haversine_degrees(gs.Coordinate(0.0, y0), 0.0, r).latitude
+        boundary = -90.0 + h * math.floor((tip + 90.0) / h)
+        cy = y0 - (tip - boundary) + 0.003 * r_deg
+        ring = gs.GeoCircle(gs.Coordinate(0.0, cy), r).bounding_coords()
+        east = max(ring, key=lambda c: c.longitude)
+        x0 = rng.uniform(-150.0, 150.0)
+        xb = -180.0 + w * math.floor((x0 + 180.0) / w)
+        cx = xb - east.longitude + 0.003 * r_deg
+        from geostructures.calc import bearing_degrees
+        eb = bearing_degrees(gs.Coordinate(0.0, cy), east)
+        for bearing in (0.0, eb, 360.0 - eb):
+            for frac in (0.9995, 0.999, 0.998):
+                lines.append(f'np-sliver.circ {b} {L} {rat(cx)} {rat(cy)} {rat(r)} {rat(bearing)} {rat(frac)}')
     run.run_cases('np-curved-sliver', lines, np_impl, np_spec, model=False,
                   known_key=lambda ln, a, s: KEY_F12B if a == 'missing-sliver' else 'hash_shape/contained-coordinate-missing',
                   tag=lambda ln, a: ['sliver:' + a])
